@@ -263,6 +263,11 @@ def receiver_chain(fn, op, depth=0, recv_is_iter=True):
             t = d[2]
             full = callee_name(t["callee"])
             nm = full.split("::")[-1]
+            if (t["callee"].get("path") or "") == "core::clone::Clone::clone" and len(t["args"]) == 1:
+                # `pairs.clone().all(..)`: a copy of the iterator delivers what the iterator would
+                cur = t["args"][0]
+                recv_is_iter = True
+                continue
             side = [receiver_chain(fn, a, depth) for a in t["args"][1:] if op_local(a) is not None and "closure" not in fn.local_ty(op_local(a))]
             out.append((nm, t, side))
             cur = t["args"][0]
